@@ -252,7 +252,7 @@ fn check_text(text: &str, obs: &mut Obs) -> (Vec<Violation>, bool) {
 impl Monitor for C14 {
     fn id(&self) -> &'static str { "C14" }
     fn rule(&self) -> &'static str {
-        "texts: random Unicode, token soups over the SQL vocabulary, generated valid statements with one token deleted/duplicated/swapped, every character prefix of generated valid statements, malformed definitions/aggregates/numbers, bracket nesting up to 256; parse and parse_into_tree under catch_unwind on an 8 MiB stack, error location and extract_near checked. Non-trivial = the text has >= 3 lexemes and is not rejected by the tokenizer's number check; distinct by text hash"
+        "texts: random Unicode, token soups over the SQL vocabulary, generated valid statements with one token deleted/duplicated/swapped, every character prefix of generated valid statements, malformed definitions/aggregates/numbers, bracket nesting up to 256, must-reject texts (a pattern the regex crate refuses - named, inline, split, read by a column or not -, empty JSON path, aggregate argument counts, numbers out of range: an error is REQUIRED); parse and parse_into_tree under catch_unwind on an 8 MiB stack, error location and extract_near checked. Non-trivial = the text has >= 3 lexemes and is not rejected by the tokenizer's number check; distinct by text hash"
     }
     fn assumptions(&self) -> Vec<String> { vec!["nesting deeper than 256 brackets is out of scope (documented bound)".into(), "hangs are detected by the driver's watchdog, not in-process".into()] }
     fn sizes(&self, tier: Tier) -> Sizes {
